@@ -212,6 +212,28 @@ func (h ProtectedHeader) Critical() ([]any, error) {
 	return value.([]any), nil
 }
 
+// isCountersignatureValue reports whether value is a countersignature or a
+// non-empty list of countersignatures. A nil countersignature, an empty list
+// and a list with a nil entry would be encoded as null or an empty array,
+// which the decoder does not accept as countersignatures.
+func isCountersignatureValue(value any) bool {
+	switch v := value.(type) {
+	case *Countersignature:
+		return v != nil
+	case []*Countersignature:
+		if len(v) == 0 {
+			return false
+		}
+		for _, cs := range v {
+			if cs == nil {
+				return false
+			}
+		}
+		return true
+	}
+	return false
+}
+
 // ensureCritical ensures all critical headers are present in the protected
 // bucket.
 func ensureCritical(value any, headers map[any]any) error {
@@ -638,10 +660,8 @@ func validateHeaderParameters(h map[any]any, protected bool) error {
 			if protected {
 				return errors.New("header parameter: counter signature: not allowed")
 			}
-			if _, ok := value.(*Countersignature); !ok {
-				if _, ok := value.([]*Countersignature); !ok {
-					return errors.New("header parameter: counter signature is not a Countersignature or a list")
-				}
+			if !isCountersignatureValue(value) {
+				return errors.New("header parameter: counter signature is not a Countersignature or a list")
 			}
 		case HeaderLabelCounterSignature0:
 			if protected {
@@ -654,10 +674,8 @@ func validateHeaderParameters(h map[any]any, protected bool) error {
 			if protected {
 				return errors.New("header parameter: Countersignature version 2: not allowed")
 			}
-			if _, ok := value.(*Countersignature); !ok {
-				if _, ok := value.([]*Countersignature); !ok {
-					return errors.New("header parameter: Countersignature version 2 is not a Countersignature or a list")
-				}
+			if !isCountersignatureValue(value) {
+				return errors.New("header parameter: Countersignature version 2 is not a Countersignature or a list")
 			}
 		case HeaderLabelCounterSignature0V2:
 			if protected {
